@@ -95,13 +95,17 @@ Proof.
   rewrite map_length, seq_length in Len. lia.
 Qed.
 
-Lemma snap_free : forall tak y, zmem y tak = false -> zmem (snap_near_by tak y) tak = false.
+Lemma snap_rules_free : forall rs tak y, snap_ok rs = true -> zmem y tak = false ->
+  zmem (snap_rules tak y rs) tak = false.
 Proof.
-  intros tak y H. unfold snap_near_by.
-  destruct (zmem (y - 2) tak && negb (zmem (y - 1) tak)) eqn:E1.
-  - apply andb_true_iff in E1. destruct E1 as [_ E1]. apply negb_true_iff in E1. assumption.
-  - destruct (negb (zmem (y - 1) tak) && zmem (y + 2) tak && negb (zmem (y + 1) tak)) eqn:E2; [|assumption].
-    apply andb_true_iff in E2. destruct E2 as [_ E2]. apply negb_true_iff in E2. assumption.
+  induction rs as [|r rest IH]; intros tak y Hok Hy; simpl; [assumption|].
+  simpl in Hok. apply andb_true_iff in Hok. destruct Hok as [Hr Hrest].
+  destruct (rule_holds tak y r) eqn:Eh; [|apply IH; assumption].
+  apply existsb_exists in Hr. destruct Hr as [[off want] [Hin Hc]]. simpl in Hc.
+  apply andb_true_iff in Hc. destruct Hc as [Hoff Hw].
+  apply Z.eqb_eq in Hoff. apply negb_true_iff in Hw. subst.
+  unfold rule_holds in Eh. rewrite forallb_forall in Eh. specialize (Eh _ Hin). simpl in Eh.
+  destruct (zmem (y + sn_move r) tak); [discriminate | reflexivity].
 Qed.
 
 (** * concat of disjoint buckets *)
@@ -119,6 +123,8 @@ Proof.
 Qed.
 
 Section Layout.
+Variable P : lparams.
+Hypothesis POK : params_ok P = true.
 Variable m : dmap.
 Hypothesis Acc : accepted m.
 Let g := m_g m.
@@ -127,7 +133,7 @@ Let nl := m_nlayer m.
 Variable L : lays.
 Hypothesis PI : pinv m L.
 
-Lemma sorted_layers_some : exists sl, sorted_layers m L = Some sl /\
+Lemma sorted_layers_some : exists sl, sorted_layers P m L = Some sl /\
   NoDup (concat sl) /\ (forall v, In v (concat sl) <-> In v (keys g)).
 Proof.
   unfold sorted_layers. fold g. fold nl.
@@ -144,7 +150,7 @@ Proof.
   - intros v. rewrite in_concat. split.
     + intros [l [H1 H2]]. apply in_map_iff in H1. destruct H1 as [i [<- _]].
       apply In_sort_by in H2. apply filter_In in H2. tauto.
-    + intros Hv. exists (sort_by (by_ncrit_lt m) (filter (fun v0 => Nat.eqb (lget L v0) (lget L v)) (keys g))).
+    + intros Hv. exists (sort_by (by_ncrit_lt P m L) (filter (fun v0 => Nat.eqb (lget L v0) (lget L v)) (keys g))).
       split.
       * apply in_map_iff. exists (lget L v). split; [reflexivity|]. apply in_seq.
         pose proof (p_bound m L PI v Hv). fold nl in H. lia.
@@ -163,7 +169,7 @@ Record linv (placed : list name) (st : lstate) : Prop := {
 }.
 
 Lemma place_step : forall placed st n, linv placed st -> ~ In n placed -> In n (keys g) ->
-  exists st', place m L st n = LOk st' /\ linv (n :: placed) st'.
+  exists st', place P m L st n = LOk st' /\ linv (n :: placed) st'.
 Proof.
   intros placed st n [I1 I2 I3 I4 I5] Hn Kn. unfold place.
   set (x := lget L n). set (tak := nth x (l_slots st) []).
@@ -171,11 +177,18 @@ Proof.
   { rewrite I1. apply (p_bound m L PI). assumption. }
   destruct (find_y (S (length tak)) tak (avg_crit_in_y m (l_y st) n) 0) as [y0|] eqn:Ef.
   2:{ exfalso. revert Ef. apply find_y_total. }
-  apply find_y_free in Ef. apply snap_free in Ef.
-  set (y := snap_near_by tak y0) in *.
+  assert (Hsnap : snap_ok (p_snap P) = true /\ reserve_ok (p_reserve P) = true).
+  { unfold params_ok in POK. rewrite !andb_true_iff in POK. tauto. }
+  destruct Hsnap as [Hsnap Hres].
+  apply find_y_free in Ef. apply (snap_rules_free (p_snap P) _ _ Hsnap) in Ef.
+  fold (snap_near_by P tak y0) in Ef.
+  set (y := snap_near_by P tak y0) in *.
+  assert (Hy : In y (map (fun o => (y + o)%Z) (p_reserve P))).
+  { unfold reserve_ok in Hres. apply existsb_exists in Hres. destruct Hres as [o [Ho Eo]].
+    apply Z.eqb_eq in Eo. subst o. apply in_map_iff. exists 0%Z. split; [lia | assumption]. }
   apply zmem_false in Ef.
   eexists. split; [reflexivity|].
-  set (slots1 := take_slot (l_slots st) x [(y - 1)%Z; y; (y + 1)%Z]).
+  set (slots1 := take_slot (l_slots st) x (map (fun o => (y + o)%Z) (p_reserve P))).
   assert (Yn : forall a, yget (aset (l_y st) n y) a = if N.eqb a n then y else yget (l_y st) a).
   { intros a. unfold yget. apply aget_aset. }
   assert (Mono : forall j z, In z (nth j (l_slots st) []) ->
@@ -186,7 +199,7 @@ Proof.
   - rewrite fold_take_length. unfold slots1. rewrite take_slot_length. assumption.
   - intros a [<-|Ha].
     + rewrite Yn, N.eqb_refl. apply fold_take_mono. unfold slots1. fold x.
-      apply take_slot_in; [assumption | right; left; reflexivity].
+      apply take_slot_in; assumption.
     + rewrite Yn. destruct (N.eqb_spec a n); [subst; contradiction|]. apply Mono. apply I2. assumption.
   - intros a [<-|Ha]; rewrite Yn.
     + rewrite N.eqb_refl. destruct (Z.ltb_spec y (l_ymin st)); lia.
@@ -206,7 +219,7 @@ Qed.
 
 Lemma place_all_ok : forall nodes placed st, linv placed st -> NoDup nodes ->
   (forall n, In n nodes -> ~ In n placed /\ In n (keys g)) ->
-  exists st', place_all m L st nodes = LOk st' /\
+  exists st', place_all P m L st nodes = LOk st' /\
               linv (rev nodes ++ placed) st'.
 Proof.
   induction nodes as [|n r IH]; intros placed st I Hn Hk; simpl.
@@ -249,12 +262,14 @@ Proof.
 Qed.
 
 Section View.
+Variable P : lparams.
+Hypothesis POK : params_ok P = true.
 Variable m : dmap.
 Hypothesis Acc : accepted m.
 Let g := m_g m.
 
 Theorem layout_map_ok :
-  exists v, layout_map m = VwOk v /\
+  exists v, layout_map P m = VwOk v /\
     v_width v = m_nlayer m /\
     map fst (v_nodes v) = keys g /\
     (forall k, In k (keys g) -> vx v k < v_width v /\ (0 <= vy v k < v_height v)%Z) /\
@@ -262,9 +277,9 @@ Theorem layout_map_ok :
     (forall u w, edge g u w -> vx v u < vx v w).
 Proof.
   unfold layout_map.
-  destruct (push_tight_ok m Acc) as [L [EL PI]]. rewrite EL.
-  destruct (sorted_layers_some m Acc L PI) as [sl [Es [Ns Is]]]. rewrite Es.
-  destruct (place_all_ok m L PI (concat sl) [] _ (linv_init m L) Ns) as [st [Ep I]].
+  destruct (push_tight_ok P m Acc) as [L [EL PI]]. rewrite EL.
+  destruct (sorted_layers_some P m Acc L PI) as [sl [Es [Ns Is]]]. rewrite Es.
+  destruct (place_all_ok P POK m L PI (concat sl) [] _ (linv_init m L) Ns) as [st [Ep I]].
   { intros n Hn. split; [tauto | apply Is; assumption]. }
   rewrite Ep. rewrite app_nil_r in I.
   eexists. split; [reflexivity|].
